@@ -430,9 +430,9 @@ def mdaEval (s : Sys) (outs : List String) (point : Data) : Vec :=
 
 /-- Total derivative blocks `dF/dn = F_n + sum_k F_k W[k,n]`, laid out along `names` through the same
     adapter/unmask bookkeeping (the MDA reads every optimisation variable). -/
-def mdaJac (s : Sys) (names : List String) (outs : List String) (point : Data) (w : String → String → Mat) : Option Mat :=
+def mdaJacRows (s : Sys) (names : List String) (outs : List String) (point : Data) (w : String → String → Mat) : Mat :=
   let sz := s.allSizes
-  let rows : Mat := outs.flatMap (fun o =>
+  outs.flatMap (fun o =>
     match s.producer? o with
     | none => []
     | some d =>
@@ -446,7 +446,11 @@ def mdaJac (s : Sys) (names : List String) (outs : List String) (point : Data) (
           (s.allCouplings.filter (fun l => d.hasInput l)).foldl
             (fun acc l => madd acc (matMul (sp.jacBlock data l (sizeOf sz l)) (w l n) (sizeOf sz n))) direct))
           sp.const.length)
-  unmaskRows s.sizes names names rows none
+
+/-- The Jacobian an MDF function returns: the adapter's array (`mdaJacRows`, all the optimisation variables are
+    inputs of the MDA) unmasked along `names` — a fresh array even though nothing is masked. -/
+def mdaJac (s : Sys) (names : List String) (outs : List String) (point : Data) (w : String → String → Mat) : Option Mat :=
+  unmaskRows s.sizes names names (mdaJacRows s names outs point w) none
 
 /-- The MDF (or DisciplinaryOpt) view: `none` when a certificate is wrong. -/
 def mdfView (s : Sys) (names : List String) (outs : List String) (x : Vec) (ystar : Data)
@@ -457,6 +461,155 @@ def mdfView (s : Sys) (names : List String) (outs : List String) (x : Vec) (ysta
   else match mdaJac s names outs point w with
     | some j => some (mdaEval s outs point, j)
     | none => none
+
+/-! ### Parallel IDF (`n_processes > 1`): the top-level discipline is the `MDOParallelChain`
+
+`IDF.get_top_level_disciplines` returns the single `MDOParallelChain(disciplines)`; every function and
+consistency constraint is then a `FunctionFromDiscipline` over the chain: its input grammar is the union
+of the input grammars, every discipline is executed with the chain's input data (its own defaults for
+the rest), the outputs are merged, and the Jacobian of an output has the producer's blocks for the
+producer's inputs and zero blocks for the other inputs of the chain.  The chain declares no linear
+relationship, so the linear (Taylor) branch is never taken in this mode. -/
+
+def Sys.parHasInput (s : Sys) (n : String) : Bool := s.discs.any (fun d => d.hasInput n)
+
+def Sys.parRun (s : Sys) (given : Data) (o : String) : Vec :=
+  match s.producer? o with
+  | some d => d.run given o
+  | none => []
+
+def Sys.parRowsOf (s : Sys) (o : String) : Nat :=
+  match s.producer? o with
+  | some d => d.rowsOf o
+  | none => 0
+
+def Sys.parJac (s : Sys) (sizes : Sizes) (given : Data) (o i : String) : Mat :=
+  match s.producer? o with
+  | some d => if d.hasInput i then d.jac sizes given o i else zeroMat (d.rowsOf o) (sizeOf sizes i)
+  | none => []
+
+/-- Value of `FunctionFromDiscipline(outs)` over the parallel chain. -/
+def parEval (s : Sys) (sizes : Sizes) (names : List String) (outs : List String) (x : Vec) : Option Vec :=
+  gEval sizes names s.parHasInput s.parRun outs x
+
+/-- Jacobian of `FunctionFromDiscipline(outs)` over the parallel chain. -/
+def parJacF (s : Sys) (sizes : Sizes) (names : List String) (outs : List String) (x : Vec) : Option Mat :=
+  gJac sizes names s.parHasInput (s.parJac sizes) s.parRowsOf outs x
+
+/-- `ConsistencyConstraint._func_to_wrap` / `_jac_to_wrap` when the coupling function is built over the chain. -/
+def consEvalPar (s : Sys) (normalize : Bool) (d : Disc) (x : Vec) : Option Vec :=
+  let sizes := s.sizes
+  let names := s.ds.names
+  let oc := s.outputCouplings d
+  match maskX sizes oc names x, parEval s sizes names oc x with
+  | some xsw, some coupl =>
+    let diff := vsub coupl xsw
+    some (if normalize then List.zipWith (fun a f => a / f) diff (normFactor s.ds oc) else diff)
+  | _, _ => none
+
+def consJacPar (s : Sys) (normalize : Bool) (d : Disc) (x : Vec) : Option Mat :=
+  let sizes := s.sizes
+  let names := s.ds.names
+  let oc := s.outputCouplings d
+  match parJacF s sizes names oc x with
+  | none => none
+  | some cj =>
+    match targetJac sizes names oc cj.length with
+    | none => none
+    | some xj =>
+      let diff := msub cj xj
+      some (if normalize then divRows diff (normFactor s.ds oc) else diff)
+
+/-! ### `start_at_equilibrium`
+
+`IDF._compute_equilibrium` executes an `MDAChain` of the disciplines **with the current value of every
+design-space variable** (`design_space.get_current_value(as_dict=True)`), whatever `n_processes`: the
+design variables fix the design point (the disciplines' default inputs play no role for them), the
+current values of the couplings are only the initial guess of the MDA.  The coupling outputs of the MDA
+become the current values of the couplings.  The MDA itself is not computed by the model: its solution
+is a certificate checked exactly. -/
+
+/-- The point at which the certificate is checked: the current design values, the certified couplings. -/
+def Sys.equilibriumPoint (s : Sys) (cur : Vec) (ystar : Data) : Data :=
+  ((namedPoint s.sizes s.ds.names cur).filter (fun p => !s.allCouplings.contains p.1))
+    ++ s.allCouplings.map (fun k => (k, ystar.get k))
+
+/-- The current value after `start_at_equilibrium` (`none`: the certificate is not the solution). -/
+def idfEquilibrium (s : Sys) (cur : Vec) (ystar : Data) : Option Vec :=
+  if s.consistent (s.equilibriumPoint cur ystar) then
+    some ((namedPoint s.sizes s.ds.names cur).flatMap
+      (fun q => if s.allCouplings.contains q.1 then ystar.get q.1 else q.2))
+  else none
+
+/-! ### Returned arrays and the adapter's Jacobian buffer
+
+`DisciplineAdapter._convert_jacobian_to_array` fills ONE array owned by the adapter (`self.__jacobian`,
+allocated at the first call) and returns that very array at every call.  What isolates the caller from
+this buffer is `unmask_x_swap_order`, called by `FunctionFromDiscipline._jac_to_wrap`: it allocates a
+new zero array and copies the blocks of the adapter's array into it — also when nothing is masked (MDF:
+every optimisation variable feeds the MDA).  The heap below has one cell per array ever allocated. -/
+
+structure JHeap where
+  /-- the arrays allocated so far -/
+  cells : List Mat
+  /-- per function object: the cell of its adapter's buffer once allocated -/
+  buf : List (Option Nat)
+  /-- the cells handed to the caller, in call order -/
+  ret : List Nat
+  deriving Repr
+
+def JHeap.empty (nFun : Nat) : JHeap := ⟨[], List.replicate nFun none, []⟩
+
+def JHeap.read (h : JHeap) (c : Nat) : Mat := h.cells.getD c []
+
+/-- The arrays the caller holds, as they are now. -/
+def JHeap.held (h : JHeap) : List Mat := h.ret.map h.read
+
+/-- `DisciplineAdapter._jac_to_wrap` of function object `f`: (allocate and) overwrite the adapter's own
+    buffer with the Jacobian `j`; the buffer itself is the result. -/
+def JHeap.adapterJac (h : JHeap) (f : Nat) (j : Mat) : JHeap × Nat :=
+  match h.buf.getD f none with
+  | some c => ({ h with cells := h.cells.set c j }, c)
+  | none => ({ h with cells := h.cells ++ [j], buf := h.buf.set f (some h.cells.length) }, h.cells.length)
+
+/-- `FunctionFromDiscipline._jac_to_wrap` of function object `f`: the adapter's array is unmasked into a
+    NEW array, which is returned (`none`: the unmasking fails). -/
+def JHeap.ffdJacCall (h : JHeap) (f : Nat) (j : Mat) (un : Mat → Option Mat) : Option JHeap :=
+  let r := h.adapterJac f j
+  match un (r.1.read r.2) with
+  | none => none
+  | some u => some { r.1 with cells := r.1.cells ++ [u], ret := r.1.ret ++ [r.1.cells.length] }
+
+/-- A function whose Jacobian is computed into a new array at every call (`ConsistencyConstraint`:
+    `coupl_jac - x_jac`; `-jac` of a positive inequality; the constant array of an `MDOLinearFunction`,
+    never written). -/
+def JHeap.freshCall (h : JHeap) (m : Mat) : JHeap :=
+  { h with cells := h.cells ++ [m], ret := h.ret ++ [h.cells.length] }
+
+/-- A history of `jac` calls on function objects sharing the heap: `(function, adapter Jacobian, unmasking)`. -/
+def JHeap.run : JHeap → List (Nat × Mat × (Mat → Option Mat)) → Option JHeap
+  | h, [] => some h
+  | h, c :: cs =>
+    match h.ffdJacCall c.1 c.2.1 c.2.2 with
+    | some h' => h'.run cs
+    | none => none
+
+/-- The two halves of `gJac`: the adapter-level Jacobian and the unmasking applied to it. -/
+def gJacParts (sizes : Sizes) (names : List String) (hasInput : String → Bool)
+    (jac : Data → String → String → Mat) (rowsOf : String → Nat) (outs : List String) (x : Vec) :
+    Option (Mat × (Mat → Option Mat)) :=
+  let inputNames := names.filter hasInput
+  match maskX sizes inputNames names x with
+  | none => none
+  | some xm =>
+    some (gAdapterJac inputNames (jac (adapterInputData sizes inputNames xm)) rowsOf outs,
+          fun m => unmaskRows sizes inputNames names m none)
+
+/-- The variant that a "nothing to unmask" shortcut would give: the adapter's buffer is handed to the caller
+    when every name is kept.  (Only used in `Props/C17` to show what the persistence theorem excludes.) -/
+def JHeap.aliasingJacCall (h : JHeap) (f : Nat) (j : Mat) : JHeap :=
+  let r := h.adapterJac f j
+  { r.1 with ret := r.1.ret ++ [r.2] }
 
 /-! ### `OptimizationProblem.add_constraint(value, positive)`: `c - a` or `a - c` -/
 
